@@ -85,7 +85,9 @@ def run(ctx):
                [b"v6@[2001:DB8:0:0:0:0:0:1]", b"w@[IPv6:2001:db8::1]", b"l@[::1]"],
                [b"b@y.org", b"b@y.org"], [b"r%d@many.example" % i for i in range(5)]]
     msgs = [b"hello\r\n", b"caf\xc3\xa9\r\n", b"\xff\x00", b""]
-    ext_sets = [[], [b"8BITMIME"], [b"SMTPUTF8"], [b"8BITMIME", b"SMTPUTF8"], [b"8bitmime", b"smtputf8", b"SIZE 10"], [b"X 8BITMIME SMTPUTF8"], [b"PIPELINING", b"8BITMIME", b"SMTPUTF8", b"CHUNKING", b"DSN"]]
+    ext_sets = [[], [b"8BITMIME"], [b"SMTPUTF8"], [b"8BITMIME", b"SMTPUTF8"], [b"8bitmime", b"smtputf8", b"SIZE 10"], [b"X 8BITMIME SMTPUTF8"], [b"PIPELINING", b"8BITMIME", b"SMTPUTF8", b"CHUNKING", b"DSN"],
+                # keywords that look like the two extensions but are others (UTF8SMTP is RFC 5336's, obsolete)
+                [b"UTF8SMTP", b"8BITMIMEX", b"SMTPUTF", b"X-SMTPUTF8"], [b"UTF8SMTP", b"8BITMIME"], [b"BINARYMIME", b"SMTPUTF88"]]
     refusals = [None, ("mail", b"550 no\r\n"), ("rcpt0", b"451-try\r\n451 later\r\n"), ("rcptlast", b"550 unknown\r\n"), ("data", b"554 no data\r\n"), ("eod", b"552 too big\r\n")]
     combos = list(itertools.product(froms, tolists, msgs, ext_sets, refusals))
     if ctx.tier == "quick":
